@@ -126,6 +126,16 @@ impl SwiftField for Field57B {
         // Check for location
         if current_idx < lines.len() {
             let loc = lines[current_idx];
+            if lines.len() > current_idx + 1 {
+                return Err(ParseError::InvalidFormat {
+                    message: "Field 57B has no line after the location".to_string(),
+                });
+            }
+            if loc.len() > 35 {
+                return Err(ParseError::InvalidFormat {
+                    message: "Field 57B location exceeds 35 characters".to_string(),
+                });
+            }
             if !loc.is_empty() && loc.len() <= 35 {
                 parse_swift_chars(loc, "Field 57B location")?;
                 location = Some(loc.to_string());
